@@ -95,20 +95,22 @@ type sub struct {
 }
 
 type drvLine struct {
-	Pkg      string `json:"pkg"`
-	P        string `json:"p"`
-	M        string `json:"m"`
-	Serve    sub    `json:"serve"`
-	Pfx      sub    `json:"pfx"`
-	NoPfx    sub    `json:"nopfx"`
-	Esc      sub    `json:"esc"`
-	EscU     sub    `json:"escU"`
-	Bad      sub    `json:"bad"`
-	Find     sub    `json:"find"`
-	FindEsc  sub    `json:"findesc"`
-	FindPfx  sub    `json:"findpfx"`
-	EscR     sub    `json:"escR"`
-	FindEscR sub    `json:"findescR"`
+	Pkg        string `json:"pkg"`
+	P          string `json:"p"`
+	M          string `json:"m"`
+	Serve      sub    `json:"serve"`
+	Pfx        sub    `json:"pfx"`
+	NoPfx      sub    `json:"nopfx"`
+	Esc        sub    `json:"esc"`
+	EscU       sub    `json:"escU"`
+	Bad        sub    `json:"bad"`
+	Find       sub    `json:"find"`
+	FindEsc    sub    `json:"findesc"`
+	FindPfx    sub    `json:"findpfx"`
+	EscR       sub    `json:"escR"`
+	FindEscR   sub    `json:"findescR"`
+	PfxEsc     sub    `json:"pfxesc"`
+	FindPfxEsc sub    `json:"findpfxesc"`
 }
 
 type tsub struct {
@@ -323,6 +325,13 @@ func Check(r *core.Run) error {
 	r.Cov("paths_per_package", len(paths))
 	r.Cov("bounds", map[string]int{"template_tokens": tplLen, "path_chars": pathLen})
 	r.SetExhaustive(true)
+	// the method matrix: every HTTP method the spec language has, each its own operation
+	// (operationId carries the method the harness wrote, whatever the parser made of it)
+	all8 := []string{"GET", "HEAD", "POST", "PUT", "PATCH", "DELETE", "OPTIONS", "TRACE"}
+	sets = append(sets,
+		routeSet{{T: []string{"/", "a"}, Ms: all8}, {T: []string{"/", "a", "/", P}, Ms: []string{"HEAD", "OPTIONS", "PUT"}},
+			{T: []string{"/", "b"}, Ms: []string{"GET", "HEAD", "OPTIONS"}}, {T: []string{"/", "b", "b"}, Ms: []string{"GET", "OPTIONS"}}},
+		routeSet{{T: []string{"/", P}, Ms: []string{"DELETE", "OPTIONS", "PATCH", "TRACE"}}, {T: []string{"/", "a"}, Ms: []string{"HEAD", "OPTIONS"}}})
 	return serveSets(r, known, sets, paths)
 }
 
@@ -409,7 +418,17 @@ func serveSets(r *core.Run, known string, sets []routeSet, paths []string) error
 	}
 	r.Cov("build_s", time.Since(t0).Seconds())
 	outFile := filepath.Join(r.Scratch, "drv-out.ndjson")
-	job, _ := json.Marshal(map[string]any{"pkgs": names, "paths": paths, "out": outFile})
+	allM := map[string]bool{}
+	for _, in := range live {
+		for _, e := range in.rs {
+			for _, m := range e.Ms {
+				if m != "GET" && m != "POST" {
+					allM[in.name] = true
+				}
+			}
+		}
+	}
+	job, _ := json.Marshal(map[string]any{"pkgs": names, "paths": paths, "out": outFile, "allMethods": allM})
 	jobFile := filepath.Join(r.Scratch, "job.json")
 	if err := os.WriteFile(jobFile, job, 0o644); err != nil {
 		return err
@@ -444,7 +463,8 @@ func serveSets(r *core.Run, known string, sets []routeSet, paths []string) error
 			"serve": project(d.Serve, in.rs, &d.Find), "pfx": project(d.Pfx, in.rs, &d.FindPfx), "nopfx": project(d.NoPfx, in.rs, nil),
 			"esc": project(d.Esc, in.rs, &d.FindEsc), "escU": project(d.EscU, in.rs, &d.Find), "bad": project(d.Bad, in.rs, &d.Find),
 			"escR": project(d.EscR, in.rs, &d.FindEscR), "findescR": project(d.FindEscR, in.rs, nil),
-			"find": project(d.Find, in.rs, nil), "findesc": project(d.FindEsc, in.rs, nil), "findpfx": project(d.FindPfx, in.rs, nil)}
+			"find": project(d.Find, in.rs, nil), "findesc": project(d.FindEsc, in.rs, nil), "findpfx": project(d.FindPfx, in.rs, nil),
+			"pfxesc": project(d.PfxEsc, in.rs, &d.FindPfxEsc), "findpfxesc": project(d.FindPfxEsc, in.rs, nil)}
 		b, _ := json.Marshal(o)
 		groups[d.Pkg] = append(groups[d.Pkg], b)
 		lineInfo[d.Pkg] = append(lineInfo[d.Pkg], d)
